@@ -22,338 +22,17 @@ package snapshot
 
 import (
 	"fmt"
-	"io"
 	"math/rand"
 	"os"
 	"path/filepath"
 	"strings"
 	"testing"
-	"time"
 
-	"github.com/hashicorp/raft"
-	command "github.com/rqlite/rqlite/v10/command/proto"
-	"github.com/rqlite/rqlite/v10/db"
 	"github.com/rqlite/rqlite/v10/internal/verif/vcrash"
 	"github.com/rqlite/rqlite/v10/internal/verif/vos"
-	"github.com/rqlite/rqlite/v10/internal/verif/vsql"
 	"github.com/rqlite/rqlite/v10/internal/verif/vstat"
 	"pgregory.net/rapid"
 )
-
-type c07Shape struct {
-	OlderFulls int     // full snapshots older than the newest full
-	FullWALs   int     // 0: newest full is a plain full; >0: installed full carrying this many WAL files
-	Incs       []int   // WAL files per incremental snapshot after the newest full
-	NoVerifyDB bool    // plan without the verify_db op
-	NestStride int     // crash again during the recovery run of every NestStride-th in-plan state (1 = all)
-	NestOff    int     // first in-plan state that is nested
-	Batches    [][]string // SQL batches, consumed one per snapshot/WAL
-	Seed       int64   // for the partial-checkpoint page subsets
-}
-
-func (s c07Shape) canon() string {
-	return fmt.Sprintf("older=%d fullwals=%d incs=%v noverify=%v", s.OlderFulls, s.FullWALs, s.Incs, s.NoVerifyDB)
-}
-
-func (s c07Shape) nBatches() int {
-	n := s.OlderFulls + 1 + s.FullWALs
-	for _, w := range s.Incs {
-		n += w
-	}
-	return n
-}
-
-func c07GenBatch(rt *rapid.T, next *int) []string {
-	n := rapid.IntRange(1, 4).Draw(rt, "nstmt")
-	out := make([]string, 0, n+1)
-	// always one insert so that every batch produces WAL frames
-	*next++
-	out = append(out, fmt.Sprintf("INSERT INTO t(id, v, n) VALUES(%d, '%s', %d)", *next, strings.Repeat("x", rapid.IntRange(1, 40).Draw(rt, "len")), *next*7))
-	for i := 1; i < n; i++ {
-		switch rapid.IntRange(0, 5).Draw(rt, "kind") {
-		case 0, 1:
-			*next++
-			// occasionally a row bigger than a page (overflow pages, several frames)
-			l := rapid.SampledFrom([]int{5, 60, 900, 5000, 9000}).Draw(rt, "biglen")
-			out = append(out, fmt.Sprintf("INSERT INTO t(id, v, n) VALUES(%d, '%s', %d)", *next, strings.Repeat(string(rune('a'+*next%26)), l), *next))
-		case 2:
-			out = append(out, fmt.Sprintf("UPDATE t SET n = n + 1, v = v || 'u' WHERE id %% %d = 0", rapid.IntRange(2, 5).Draw(rt, "mod")))
-		case 3:
-			out = append(out, fmt.Sprintf("DELETE FROM t WHERE id = %d", rapid.IntRange(1, *next).Draw(rt, "del")))
-		case 4:
-			out = append(out, "CREATE TABLE IF NOT EXISTS u0 (k TEXT PRIMARY KEY, w BLOB) WITHOUT ROWID",
-				fmt.Sprintf("INSERT OR REPLACE INTO u0 VALUES('k%d', x'%02x%02x')", rapid.IntRange(0, 6).Draw(rt, "key"), *next%256, (*next*3)%256))
-		case 5:
-			out = append(out, "CREATE INDEX IF NOT EXISTS t_n ON t(n)")
-		}
-	}
-	return out
-}
-
-func c07GenShape(rt *rapid.T) c07Shape {
-	s := c07Shape{
-		OlderFulls: rapid.SampledFrom([]int{0, 0, 1, 1, 2}).Draw(rt, "olderFulls"),
-		FullWALs:   rapid.SampledFrom([]int{0, 0, 0, 1, 2, 3}).Draw(rt, "fullWALs"),
-		NoVerifyDB: rapid.IntRange(0, 3).Draw(rt, "noVerify") == 0,
-		Seed:       rapid.Int64Range(1, 1<<40).Draw(rt, "seed"),
-	}
-	nInc := rapid.SampledFrom([]int{0, 1, 1, 2, 2, 3, 4}).Draw(rt, "nInc")
-	for i := 0; i < nInc; i++ {
-		s.Incs = append(s.Incs, rapid.SampledFrom([]int{1, 1, 1, 2, 3}).Draw(rt, "walsInInc"))
-	}
-	if vstat.Thorough() {
-		s.NestStride = 1
-	} else {
-		s.NestStride = rapid.IntRange(6, 10).Draw(rt, "nestStride")
-		s.NestOff = rapid.IntRange(0, s.NestStride-1).Draw(rt, "nestOff")
-	}
-	next := 0
-	for i := 0; i < s.nBatches(); i++ {
-		s.Batches = append(s.Batches, c07GenBatch(rt, &next))
-	}
-	return s
-}
-
-// c07Builder builds a snapshot store from a live database with the real sinks.
-type c07Builder struct {
-	root  string
-	sdb   *db.SwappableDB
-	idx   uint64
-	term  uint64
-	stage string
-	batch int
-	shape c07Shape
-}
-
-func (b *c07Builder) exec(q string) error {
-	r, err := b.sdb.Execute(&command.Request{Statements: []*command.Statement{{Sql: q}}}, false)
-	if err != nil {
-		return err
-	}
-	for _, x := range r {
-		if e := x.GetError(); e != "" {
-			return fmt.Errorf("%s: %s", q, e)
-		}
-	}
-	return nil
-}
-
-func (b *c07Builder) nextBatch() error {
-	for _, q := range b.shape.Batches[b.batch] {
-		if err := b.exec(q); err != nil {
-			return err
-		}
-		b.idx++
-	}
-	b.batch++
-	return nil
-}
-
-func (b *c07Builder) persist(st *Store, rc io.ReadCloser) error {
-	defer rc.Close()
-	b.idx++
-	sink, err := st.Create(1, b.idx, b.term, raft.Configuration{}, 1, nil)
-	if err != nil {
-		return err
-	}
-	sink.(*Sink).fatalFn = nil
-	if _, err := io.Copy(sink, rc); err != nil {
-		sink.Cancel()
-		return err
-	}
-	return sink.Close()
-}
-
-func (b *c07Builder) full(st *Store) error {
-	if err := b.nextBatch(); err != nil {
-		return err
-	}
-	if _, _, err := b.sdb.Checkpoint(nil, 5*time.Second); err != nil {
-		return err
-	}
-	str, err := NewSnapshotStreamer(b.sdb.Path())
-	if err != nil {
-		return err
-	}
-	if err := str.Open(); err != nil {
-		return err
-	}
-	return b.persist(st, str)
-}
-
-func (b *c07Builder) inc(st *Store, nWALs int) error {
-	if err := os.MkdirAll(b.stage, 0o755); err != nil {
-		return err
-	}
-	sd := NewStagingDir(b.stage)
-	for i := 0; i < nWALs; i++ {
-		if err := b.nextBatch(); err != nil {
-			return err
-		}
-		w, _, err := sd.CreateWAL()
-		if err != nil {
-			return err
-		}
-		if _, _, err := b.sdb.Checkpoint(w, 5*time.Second); err != nil {
-			w.Cancel()
-			return err
-		}
-		if err := w.Close(); err != nil {
-			return err
-		}
-	}
-	str, err := NewSnapshotPathStreamer(sd.Path())
-	if err != nil {
-		return err
-	}
-	return b.persist(st, str)
-}
-
-func c07OpenStore(dir string) (*Store, error) {
-	st, err := NewStore(dir)
-	if err != nil {
-		return nil, err
-	}
-	st.fatalFn = nil
-	st.SetReapThreshold(1 << 20) // the background reaper never runs
-	return st, nil
-}
-
-// c07Build returns the snapshot directory and the dump of the live database
-// at the moment of the newest snapshot.
-func c07Build(root string, shape c07Shape) (snapDir, liveDump string, err error) {
-	snapDir = filepath.Join(root, "snaps")
-	sdb, err := db.OpenSwappable(filepath.Join(root, "live.db"), nil, false, true, 0)
-	if err != nil {
-		return "", "", err
-	}
-	defer sdb.Close()
-	b := &c07Builder{root: root, sdb: sdb, idx: 1, term: 2, stage: filepath.Join(root, "wal-staging"), shape: shape}
-	if err := b.exec("CREATE TABLE t (id INTEGER PRIMARY KEY, v TEXT, n INT)"); err != nil {
-		return "", "", err
-	}
-	st, err := c07OpenStore(snapDir)
-	if err != nil {
-		return "", "", err
-	}
-	defer st.Close()
-	st.SetNoVerifyDB(shape.NoVerifyDB)
-	for i := 0; i < shape.OlderFulls; i++ {
-		if err := b.full(st); err != nil {
-			return "", "", fmt.Errorf("older full: %w", err)
-		}
-	}
-	if shape.FullWALs == 0 {
-		if err := b.full(st); err != nil {
-			return "", "", fmt.Errorf("full: %w", err)
-		}
-	} else {
-		// A full snapshot that carries WAL files is what installing a streamed
-		// snapshot (full + incrementals of the sender) produces.
-		srcDir := filepath.Join(root, "src-snaps")
-		src, err := c07OpenStore(srcDir)
-		if err != nil {
-			return "", "", err
-		}
-		defer src.Close()
-		if err := b.full(src); err != nil {
-			return "", "", fmt.Errorf("src full: %w", err)
-		}
-		for i := 0; i < shape.FullWALs; i++ {
-			if err := b.inc(src, 1); err != nil {
-				return "", "", fmt.Errorf("src inc: %w", err)
-			}
-		}
-		metas, err := src.List()
-		if err != nil || len(metas) == 0 {
-			return "", "", fmt.Errorf("src list: %v", err)
-		}
-		_, rc, err := src.Open(metas[0].ID)
-		if err != nil {
-			return "", "", fmt.Errorf("src open: %w", err)
-		}
-		if err := b.persist(st, rc); err != nil {
-			return "", "", fmt.Errorf("install: %w", err)
-		}
-	}
-	for _, n := range shape.Incs {
-		if shape.OlderFulls > 0 && n > 1 {
-			b.term++ // terms may grow along the chain
-		}
-		if err := b.inc(st, n); err != nil {
-			return "", "", fmt.Errorf("inc: %w", err)
-		}
-	}
-	liveDump, err = vsql.DumpFile(sdb.Path())
-	return snapDir, liveDump, err
-}
-
-type c07View struct {
-	index, term uint64
-	dump        string
-	n           int
-}
-
-// c07Observe opens the store (running its recovery) and observes the newest
-// snapshot. stage names the step that failed.
-func c07Observe(snapDir, scratch string, thenReap bool) (v c07View, stage string, err error) {
-	st, err := c07OpenStore(snapDir)
-	if err != nil {
-		return v, "open", err
-	}
-	defer st.Close()
-	look := func() (c07View, string, error) {
-		var v c07View
-		metas, err := st.ListAll()
-		if err != nil {
-			return v, "list", err
-		}
-		if len(metas) == 0 {
-			return v, "list", fmt.Errorf("store lists no snapshot")
-		}
-		v.n = len(metas)
-		v.index, v.term = metas[0].Index, metas[0].Term
-		if err := st.Verify(); err != nil {
-			return v, "verify", err
-		}
-		_, rc, err := st.Open(metas[0].ID)
-		if err != nil {
-			return v, "open-snapshot", err
-		}
-		tmp := filepath.Join(scratch, "restored.db")
-		os.Remove(tmp)
-		_, err = Restore(rc, tmp)
-		rc.Close()
-		if err != nil {
-			return v, "restore", err
-		}
-		v.dump, err = vsql.DumpFile(tmp)
-		os.Remove(tmp)
-		if err != nil {
-			return v, "dump", err
-		}
-		return v, "", nil
-	}
-	v, stage, err = look()
-	if err != nil || !thenReap {
-		return v, stage, err
-	}
-	if _, _, err := st.Reap(); err != nil {
-		return v, "later-reap", err
-	}
-	v2, stage, err := look()
-	if err != nil {
-		return v, "after-later-reap/" + stage, err
-	}
-	if v2.index != v.index || v2.term != v.term || v2.dump != v.dump {
-		return v, "after-later-reap/changed", fmt.Errorf("later reap changed the newest snapshot: (%d,%d)->(%d,%d) same content=%v",
-			v.index, v.term, v2.index, v2.term, v2.dump == v.dump)
-	}
-	if v2.n != 1 {
-		return v, "after-later-reap/count", fmt.Errorf("%d snapshots remain after a complete reap", v2.n)
-	}
-	return v, "", nil
-}
 
 // c07Where names the plan step an event belongs to.
 func c07Where(ev vos.Event) string {
